@@ -108,4 +108,13 @@ PROPS = {
         need_events=["roundtrips", "avps_compared"],
         assumptions=TRUST + ["within one struct each AVP name is used by one field; net.IP values are 4-byte IPv4 or 16-byte non-v4-mapped IPv6; -0.0 under omitempty counts as empty; a zero-valued diam.AVP struct field (no Data) is outside the family"],
     ),
+    "C07": dict(
+        level="fault_enumeration",
+        rule="(a) W in {1,2,3,8,32} goroutines each write numbered messages (sizes 60..20000 bytes, below and above the 1 KiB serialisation buffer and the 4 KiB write buffer) to one diam.Conn over an in-memory transport that stalls at a pseudo-random byte position inside two thirds of its Write calls; the transport's byte log is framed by the reference codec and checked offline: only whole messages, each successful write exactly once, fillers intact, per-writer order; run on the plain scheduler (GOMAXPROCS 16 and 2) and under the race detector. (b) every script of up to 3 (thorough 4) outcomes (k bytes accepted, temporary error) with k in {0,1,19,20,21,len-1}, ended by success or a permanent error, x retry budgets {temps-1, temps, temps+1}, for WriteToWithRetry on a plain io.Writer, through a diam.Conn with a 44-byte and a 5000-byte message (and through the SCTP backend): bytes received must be exactly the accepted prefixes of the remaining bytes, never a byte range twice, n = bytes accepted, error class as scripted. distinct_nontrivial counts distinct writer counts, interleaving fingerprints (hash of the writer order on the wire mod 4096) and (path, temps, budget, ending) classes.",
+        runs=dict(quick=[plain("TestC07", 8), plain("TestC07", 2, gomaxprocs=2, env={"VERIF_C07_PART": "a"}), race("TestC07", 4)],
+                  thorough=[plain("TestC07", 16, 3000), plain("TestC07", 4, 3000, gomaxprocs=2), race("TestC07", 8, 3000)]),
+        floor=dict(quick=500, thorough=10000),
+        need_events=["messages_on_wire", "retry_scripts"],
+        assumptions=TRUST + ["one Write call on the in-memory transport is atomic (contiguous in the log) like write(2) on a socket; a stall is taken while holding the transport's own write lock"],
+    ),
 }
